@@ -162,6 +162,61 @@ def run(ctx):
         apistream.run_one(ctx, prog, 'K-api-index')
         ctx.count('K-api-index', key=(k, dtype, pat))
 
+    # a value the user assigns AFTER a write is written unchanged by the next write (nothing derived earlier, nothing derived now, may replace it)
+    from dliswriter import AttrSetup
+    for k in range(16 if ctx.tier == 'quick' else 160):
+        indexed = rng.random() < 0.7
+        n = rng.randrange(2, 7)
+        vals = [10 + 3 * i for i in range(n)] if rng.random() < 0.5 else [100 - 2 * i for i in range(n)]
+        df = DLISFile()
+        lf = df.add_logical_file()
+        lf.add_origin('O', file_set_number=1, creation_time='2020/01/01 00:00:00')
+        ch = lf.add_channel('IDX', units='m')
+        fr = lf.add_frame('F', channels=[ch], index_type='BOREHOLE-DEPTH' if indexed else None)
+        data = {'IDX': np.array(vals, dtype=np.float64)}
+        o1 = impl.outcome(lambda: impl.write_real(df, data=data))
+        pick = rng.choice(['index_min', 'index_max', 'spacing'])
+        newv = float(rng.choice([-5, 0, 7.5, 1234]))
+        how = rng.choice(['value', 'AttrSetup-like value+units'])
+        getattr(fr, pick).value = newv
+        if how != 'value':
+            getattr(fr, pick).units = 's'
+        o2 = impl.outcome(lambda: impl.write_real(df, data=data))
+        ctx.count('K-user-edit', key=(k, pick, indexed))
+        det = {'indexed': indexed, 'index_values': vals, 'assigned_after_first_write': {pick: newv}, 'how': how}
+        if o1[0] != 'ok' or o2[0] != 'ok':
+            ctx.violation('rewrite-after-user-edit-raises', {**det, 'first': o1[0], 'second': o2 if o2[0] != 'ok' else 'ok'})
+            continue
+        d2 = filemodel.read_file(ctx, o2[1]['file'], 8192)
+        at = d2.sets('FRAME')[0].objects[0].attrs.get({'index_min': 'INDEX-MIN', 'index_max': 'INDEX-MAX', 'spacing': 'SPACING'}[pick]) if d2.ok else None
+        got = None if at is None or not at.values else at.values[0]
+        if got != ('bits', fbits(newv)) or (how != 'value' and at.units != 's'):
+            ctx.violation('value-assigned-by-the-user-after-a-write-is-not-written', {**det, 'decoded': repr(got), 'units': getattr(at, 'units', None)})
+    # the tolerance rule is RELATIVE: scaling the index by a power of two (exact in binary64) scales SPACING and changes nothing else
+    for k in range(12 if ctx.tier == 'quick' else 120):
+        rows = rng.choice([3, 4, 6, 8])
+        pat, vals = gen_index(rng, 'int32', rows)
+        outs = []
+        for scale in (1.0, 2.0 ** -30, 2.0 ** -40, 2.0 ** 20):
+            df = DLISFile()
+            lf = df.add_logical_file()
+            lf.add_origin('O', file_set_number=1, creation_time='2020/01/01 00:00:00')
+            ch = lf.add_channel('IDX', data=np.array(vals, dtype=np.float64) * scale)
+            lf.add_frame('F', channels=[ch], index_type='BOREHOLE-DEPTH')
+            o = impl.outcome(lambda: impl.write_real(df))
+            if o[0] != 'ok':
+                outs.append(('raised', None, None))
+                continue
+            dd = filemodel.read_file(ctx, o[1]['file'], 8192)
+            fo = dd.sets('FRAME')[0].objects[0]
+            sp = fo.attrs.get('SPACING')
+            di = fo.attrs.get('DIRECTION')
+            spv = None if sp is None or not sp.values else struct.unpack('>d', struct.pack('>Q', sp.values[0][1]))[0] / scale
+            outs.append(('ok', spv, None if di is None or not di.values else di.values[0][1]))
+        ctx.count('K-scale', key=(k, pat, rows))
+        if len(set(outs)) != 1:
+            ctx.violation('spacing-decision-depends-on-the-scale-of-the-index', {'pattern': pat, 'index_values': vals,
+                                                                               'scales': ['1', '2^-30', '2^-40', '2^20'], 'spacing/scale_and_direction': [repr(x) for x in outs]})
     # known finding D9: a second write of the same DLISFile with other data repeats the first write's derived values
     df = DLISFile()
     lf = df.add_logical_file()
